@@ -12,7 +12,7 @@ for log in sys.argv[1:]:
     for line in open(log, errors='replace'):
         m = re.match(r'^MUTANT (\S+) =>(.*)$', line.strip())
         if m:
-            res[m.group(1)] = dict(x.split(':') for x in m.group(2).split())
+            res.setdefault(m.group(1), {}).update(dict(x.split(':') for x in m.group(2).split()))   # later logs refine earlier rows
 
 
 def what(mid):
@@ -47,15 +47,15 @@ own = sum(1 for mid, r in res.items() if r.get(mid[:3]) == '1')
 txt = f"""## 10. Detection matrix
 
 Every seeded change was applied to a scratch worktree of the current head (never to /repo) and all 18 checks were run against
-it (`tools/battery.sh`, quick tier, on a snapshot of /verif). Four independent rounds of sub-agents produced {len(res)} changes
-(suffix none / b / c / d); each compiles, passes the 41 tests and fails its own demo (see `seeded/<id>/verify.txt`). On the unchanged
+it (`tools/battery.sh`, quick tier, on a snapshot of /verif). Five independent rounds of sub-agents produced {len(res)} changes
+(suffix none / b / c / d / e); each compiles, passes the 41 tests and fails its own demo (see `seeded/<id>/verify.txt`). On the unchanged
 tree every check exits 0. Exit 1 = violation reported (natively confirmed where the program can be replayed), exit 2 =
 inconclusive (the change uses something a program or level could not execute; not counted as a detection).
 
 {len(res) - len(missed)} of {len(res)} changes are caught by at least one check, {own} of them by the check of the property they were written
 against{'; not caught: ' + ', '.join(missed) if missed else ''}.
 
-""" + "\n".join(rows) + "\n"
+""" + (open(os.path.join(ROOT, 'tools', 'matrix_note.md')).read() + "\n" if os.path.exists(os.path.join(ROOT, 'tools', 'matrix_note.md')) else '') + "\n".join(rows) + "\n"
 d = open(os.path.join(ROOT, 'DESIGN.md')).read()
 i = d.index('## 10. Detection matrix')
 j = d.find('\n## 11.', i)
